@@ -410,6 +410,43 @@ func main() {
 				e.Violation("share-body", id, map[string]any{"case": id})
 			}
 		}
+		// the same message delivered again (a client retry, the second copy from another decoy): whatever the first
+		// delivery decided stands - nothing further is announced, nothing becomes usable that was not, and a refused
+		// registration stays refused
+		if e.Out.Evaluations%2 == 0 {
+			before := len(anns)
+			if p, m, site := venum.Guard(func() {
+				if rs, err := rm.VerifParseRegMessage(msg); err == nil {
+					for _, r := range rs {
+						if r != nil {
+							rm.VerifIngest(r)
+						}
+					}
+				}
+			}); p {
+				e.Violation("panic:"+site, m+" "+id+" (second delivery)", map[string]any{"case": id})
+				continue
+			}
+			if len(anns) != before {
+				e.Violation("announced-on-duplicate-delivery", fmt.Sprintf("%s: the second delivery of the same message caused %d further announcement(s) (%s); usable after the first delivery: v4=%v v6=%v", id, len(anns)-before, anns[len(anns)-1].Op, got4, got6), map[string]any{"case": id})
+			}
+			again4, again6 := false, false
+			for _, r := range regs {
+				if r == nil {
+					continue
+				}
+				if _, ok := rm.GetRegistrations(r.PhantomIp)[rm.VerifIdentifier(r)]; ok {
+					if r.PhantomIp.To4() != nil {
+						again4 = true
+					} else {
+						again6 = true
+					}
+				}
+			}
+			if (again4 || again6) && !got4 && !got6 {
+				e.Violation("usable-after-duplicate-delivery", fmt.Sprintf("%s: refused at the first delivery, usable after the second (v4=%v v6=%v)", id, again4, again6), map[string]any{"case": id})
+			}
+		}
 		if got4 || got6 {
 			e.Nontrivial(id)
 		}
